@@ -51,7 +51,8 @@ LX_BLANK = {'tok': {'k': 'ws', 's': ' ', 'q': [0, 1], 'a': False}, 'ch': ['SP']}
 _NAMES = {'x': 'x', 'y': 'y', 'z': 'z', 'n': 'n', 'w': 'w', 'X': 'X', 'xp': "x'", 'a': 'a', 'a1': 'a_{1}',
           'a01': 'a_{01}', 'am2': 'a_{-2}', 'am0': 'a_{-0}', 'a0': 'a_{0}', 'A1': 'A_{1}', 'as1': 'a_1',
           'ab1': 'ab_{1}', 'sib1': 'sibling_1', 'sib2': 'sibling_2', 'pi': 'pi', 'c': 'c', 'sin': 'sin', 'cos': 'cos',
-          'sinh': 'sinh', 'abs': 'abs', 'f': 'f', 'Sin': 'Sin', 'si': 'si', 'k': 'k', 'm': 'm', 'q': 'q', 'u': 'u', 'v': 'v'}
+          'sinh': 'sinh', 'abs': 'abs', 'f': 'f', 'Sin': 'Sin', 'si': 'si', 'k': 'k', 'm': 'm', 'q': 'q', 'u': 'u', 'v': 'v',
+          'I': 'I', 'vc': 'vc', 'infty': 'infty'}
 _OPS = {'lp': '(', 'rp': ')', 'lb': '[', 'rb': ']', 'cm': ',', 'pl': '+', 'mi': '-', 'ti': '*', 'dv': '/', 'pw': '^'}
 LXTAB = {'n0': lx_num('0', 0), 'n1': lx_num('1', 1), 'n2': lx_num('2', 2), 'n3': lx_num('3', 3), 'pct': LX_PCT}
 LXTAB.update({i: lx_name(s) for i, s in _NAMES.items()})
@@ -86,7 +87,7 @@ def V(n, d=1):
 FIN = {'k': 'fin'}
 NP = {'k': 'np'}
 VALTAB = {'x': V(2), 'y': V(5), 'z': V(3), 'a': V(7), 'c': V(11), 'pi': FIN, 'e': FIN, 'i': NP, 'j': NP, 'infty': NP,
-          'sibling_1': V(12), 'sibling_2': NP}
+          'sibling_1': V(12), 'sibling_2': NP, 'I': NP, 'vc': NP}
 FORB = {'none': [], 'times0': [['*', '0']], 'plus2': [['+', 'SP', '2']], 'sin': [['s', 'i', 'n']]}
 
 
@@ -96,8 +97,11 @@ def cfg_from_dims(kind, d, answers):
     consts = [c for c in ['pi', 'e', 'i', 'j'] if not (c == 'pi' and d['consts'] == 'delpi')]
     if d['consts'] == 'userc':
         consts.append('c')
-    if kind == 'sum':
+    if kind == 'sum' or d['instr'] == 'infty':
         consts.append('infty')
+    if kind == 'matrix':
+        consts += ['I', 'vc']
+    instr_name = {'a1': 'a_{1}'}.get(d['instr'], d['instr'])
     fm = d['fmode']
     route = d.get('route', 'direct')
     sampler = route in ('sampler', 'chain', 'msampler', 'mchain')
@@ -113,7 +117,7 @@ def cfg_from_dims(kind, d, answers):
         'kind': kind,
         'vars': (['x', 'y', 'z'] if has_vars else []) + hidden,
         'consts': consts,
-        'instr': ([] if d['instr'] == 'none' else [d['instr']]) + hidden,
+        'instr': ([] if d['instr'] == 'none' else [instr_name]) + hidden,
         'sibs': ['sibling_1', 'sibling_2'] if kind == 'list' else [],
         'deps': deps,
         'numbered': [{'s': 'a', 'ch': ['a']}] if d['numb'] else [],
@@ -132,6 +136,10 @@ def cfg_from_dims(kind, d, answers):
     }
     if kind == 'list':
         cfg['aux'] = {'box1': 'x*y+2', 'box1_answer': 'y*x+2', 'sub': 'matrix' if route.startswith('m') else 'formula'}
+    if kind == 'matrix':
+        cfg['aux'] = {'identity_dim': 2, 'arrays': {'vc': [1, 2]}}
+    if kind in ('formula', 'numerical') and d['instr'] == 'infty':
+        cfg['aux'] = {'allow_inf': True}
     return cfg
 
 
@@ -163,8 +171,17 @@ def math_kwargs(cfg):
         if heads:
             kw['numbered_vars'] = heads
     uc = {}
+    aux = cfg.get('aux', {})
     for nm in cfg['consts']:
-        if nm not in DEFAULT_VARIABLES and nm != 'infty':
+        if nm in aux.get('arrays', {}):
+            from mitxgraders import MathArray
+            uc[nm] = MathArray(aux['arrays'][nm])            # a user constant that is an array
+        elif nm == 'I' and aux.get('identity_dim'):
+            kw['identity_dim'] = aux['identity_dim']         # MatrixGrader adds the constant I itself
+        elif nm == 'infty':
+            if aux.get('allow_inf'):
+                kw['allow_inf'] = True                       # FormulaGrader adds infty itself; summations always have it
+        elif nm not in DEFAULT_VARIABLES:
             uc[nm] = _num(val[nm])
     for nm in DEFAULT_VARIABLES:
         if nm not in cfg['consts']:
